@@ -738,6 +738,7 @@ class Analysis:
             return t
         if f in GMP_PURE:
             args = [self.ev(a, st, nid) for a in aex]
+            self.event(nid, ('call', f, tuple(args), line, fid))
             op = GMP_PURE[f]
             if op == 'sizeinbase' and len(args) == 2 and T.is_int(args[1], 2):
                 return T.mk('bits', args[0])
